@@ -223,6 +223,30 @@ def static_order_rule(fx, scope, op_path, emitters=STATIC_EMITTERS, private_meth
     return out
 
 
+def pool_identity_rule(fx, scope, key_ty="value::JsString"):
+    """[(fn, ok, span)] for functions that look a string up in a map keyed by its text and return what they found"""
+    from c09 import ancestors
+    out = []
+    for p, f in sorted(fx.fns.items()):
+        if f.derived or f.closure or not scope(f):
+            continue
+        gets = [(bi, t) for bi, t in f.calls() if (t[1].get("d") or "").endswith("::get") and "HashMap" in (t[1].get("d") or "")
+                and t[1].get("targs") and key_ty in fx.tys(t[1]["targs"][0])]
+        if not gets:
+            continue
+        found = set()
+        for bi, t in gets:
+            found.add(t[3][0])
+        ident = [t[4] for bi, t in f.calls() if (t[1].get("d") or "").endswith("::ptr_eq") and t[4] is not None and t[4] >= 0]
+        # returns of the found value: `_0 = Ok(idx)` with idx derived from the lookup
+        rets = [(bi, s) for bi, bl in enumerate(f.blocks) for s in bl["s"]
+                if s[0] == "a" and s[1][0] == 0 and not s[1][1] and s[2][0] == "agg" and s[2][2] and s[2][2][0][0] in ("c", "m")
+                and ancestors(f, s[2][2][0][1][0]) & found]
+        for bi, s in rets:
+            out.append((f, any(f.dominates(ib, bi) for ib in ident), s[3]))
+    return out
+
+
 def regexp_rule(fx, scope, matcher=None):
     out = []
     for p, f in sorted(fx.fns.items()):
@@ -313,6 +337,18 @@ def run(fx, ck, OP):
         ck.instance("R16.static-elements-order", "%s: %s" % (f.path, kind), F.short_span(sp), ok=ok)
         if not ok:
             ck.finding("R16.static-elements-order", "R16.static-elements-order/%s/%s" % (f.path, kind), F.short_span(sp), "`%s`: %s" % (f.path, why))
+    # ---- R17 the constant pool shares a string slot by identity
+    # Variable names are looked up by identity at run time (value::VarKey hashes and compares the allocation); a pool that hands out the slot of *equal
+    # text* lets a string the compiler made itself capture the slot of an interned identifier, and the binding is not found from another chunk.
+    ck.rule("R17.pool-dedupe-identity", "a function of the bytecode builder that returns the slot found for a string in a text-keyed map does so only behind an identity "
+                                        "test of the stored string (ptr_eq)", floor=1)
+    for f, ok, sp in pool_identity_rule(fx, lambda g: g.file.startswith("src/compiler/builder.rs")):
+        ck.instance("R17.pool-dedupe-identity", f.path, F.short_span(sp), ok=ok)
+        if not ok:
+            ck.finding("R17.pool-dedupe-identity", "R17.pool-dedupe-identity/%s" % f.path, F.short_span(sp),
+                       "`%s` returns the slot of any string with equal text: names are compared by allocation at run time (VarKey), so an identifier that lands on a "
+                       "compiler-made string's slot is never found - `enum E { A = 1 << 1, B }  let number = 5; function f() { return number }` throws" % f.path)
+    ck.anchor(any(str(a).endswith("value::VarKey") for a in fx.adts), "value::VarKey (names compared by allocation)")
     # ---- R15 numeric property names (shared with C15 R5): `{ 1e21: v }` and `o[1e21]` name the same property
     import numfmt
     ck.rule("R15.numeric-keys", "the compiler never spells a numeric literal (a property name) with Rust's f64::to_string(): only value::number_to_string agrees with the run-time ToString of computed keys", floor=0)
